@@ -8,6 +8,9 @@ tie:     correspondence of create_DG on generated store/load kernels (all addres
 search:  the generator's own symbolic bookkeeping (a third implementation): store->load edge iff same location;
          after an access post-indexed by a register (`ld1 {v5.2d}, [x1], x2`, `st1 {v3.4s}, [x4], x5`) its base is unknown:
          no store->load dependency through it is reported, none is demanded (Props/C06 no_edge_after_register_post_index).
+         symbolic displacements (`foo(%rip)`, `[x2, #:lo12:foo]`): edge only for the identical symbol with equal tracked registers,
+         never a crash (no_edge_symbol_vs_number, no_edge_different_symbols); a post-/pre-indexed FIRST store: edges according to the
+         architectural address (post_indexed_store_edge, store_load_edge_sound runs the producer's changesPost).  notes/C06.md
 """
 from harness import core, dgcheck
 from harness.props.c03 import replay_common
